@@ -227,7 +227,7 @@ pub fn multiset(xs: impl Iterator<Item = String>) -> BTreeMap<String, usize> {
 /// once (ignoring case when `case_blind`), and be in byte-wise ascending order when `sorted` is set.
 pub fn csv_columns_from_header(format: &OutFormat, header: &str, case_blind: bool) -> Result<Vec<(String, Value)>, String> {
     match format {
-        OutFormat::Json => Ok(vec![]),
+        OutFormat::Json | OutFormat::JsonArray => Ok(vec![]),
         OutFormat::Csv { mapping, sorted } => {
             let norm = |s: &str| if case_blind { s.to_lowercase() } else { s.to_string() };
             let names: Vec<&str> = header.split(',').collect();
